@@ -386,6 +386,8 @@ def term_definite_difference(a, b, depth=0):
         va, vb = a[1], b[1]
         if isinstance(va, (int, float)) and isinstance(vb, (int, float)) and not isinstance(va, bool) and not isinstance(vb, bool) and va != vb:
             return f"constant {va} vs {vb}"
+        if (va is None or isinstance(va, (str, bool))) and (vb is None or isinstance(vb, (str, bool))) and va != vb:
+            return f"constant {va!r} vs {vb!r}"
         return None
     idx_like = ("const", "loopvar", "bin", "un", "elem", "sub")
     if ka in idx_like and kb in idx_like and (ka != kb or ka in ("bin", "loopvar", "elem")):
